@@ -552,7 +552,7 @@ Proof.
       rewrite tnestH_unfold. cbn [t_items t_span t_dotted t_implicit]. unfold tflags. cbn [t_dotted t_implicit negb andb orb].
       apply forallb_forall. intros kv Hin. unfold no_values in G1.
       pose proof (proj1 (forallb_forall _ _) G1 kv Hin) as Nv. pose proof (proj1 (forallb_forall _ _) G2 kv Hin) as Hkv.
-      rewrite (tnH1_novalue p (Some (p, e)) (t_span t) kv); [exact Hkv|]. destruct (is_value (snd kv)); [discriminate Nv|reflexivity].
+      rewrite (tnH1_novalue p (Some (p, e)) (t_span t) kv); [exact Hkv|]. apply negb_true_iff in Nv. exact Nv.
     + rewrite Hc. reflexivity.
 Qed.
 
